@@ -15,29 +15,45 @@ RUN = "Run_C14"
 THEOREMS = "Props/C14.v"
 ANCHORS = [("pipefunc/cache.py", ["_CacheBase", "HybridCache", "LRUCache", "SimpleCache", "DiskCache", "_pickle_key"])]
 RULE = ("per class (LRUCache, SimpleCache, HybridCache, DiskCache) and max_size 1..3: the COMPLETE tree of operation "
-        "sequences over put/get/clear (+reopen for DiskCache) on a 3-key alphabet (4 keys for max_size 3) up to a depth, "
-        "with `k in cache` for every key and len(cache) observed after every operation, split into one case per prefix; "
-        "shared=True variants of the same trees (one in-process manager); random sequences of <= 40 explicit "
-        "put/get/in/len/clear/reopen operations incl. extreme float durations; hand-written witnesses of the repaired "
-        "defects.  A tree case counts as ONE case although it covers hundreds to thousands of sequences; non-trivial = "
-        "every tree case, and every sequence that puts more distinct keys than max_size or re-puts a resident key; "
-        "distinct by (configuration, prefix/ops)")
+        "sequences over put/get/clear (+reopen for DiskCache) on a 3-key alphabet (4 keys for max_size 3) up to a depth "
+        "(quick: LRU 4-5, Hybrid 3-4, Simple 4, Disk 2-3; thorough: LRU 5-6, Hybrid 4-5, Simple 5, Disk 3-4), with "
+        "`k in cache` for every key and len(cache) observed after every operation, split into one case per prefix; "
+        "shared=True variants of the same trees at smaller depth (one in-process manager); ALL schedules of two clients "
+        "issuing 1-2 put/get operations each on one cache (step scheduler: every call on the cache's dict/list/lock is "
+        "one step), outcome sets compared with the atomic interleavings; random sequences of <= 40 explicit "
+        "put/get/in/len/clear/reopen operations incl. zero, subnormal and huge float durations; hand-written witnesses "
+        "of the repaired defects.  A tree case counts as ONE case although it covers hundreds to thousands of "
+        "sequences; non-trivial = every tree and every two-client case, and every sequence that puts more distinct keys "
+        "than max_size or re-puts a key; distinct by (configuration, prefix/ops)")
 ASSUMPTIONS = [
     "keys are small ints 0..3, values small ints 0..40 (never None: `get` cannot distinguish a stored None from a miss)",
-    "HybridCache durations and weights are Python floats (any finite binary64 value is covered bit-exactly by Coq's "
-    "PrimFloat in the correspondence; the theorems hold for every arithmetic, the policy theorem assumes `<` is "
-    "transitive on the scores present, which excludes NaN scores)",
+    "HybridCache durations and weights are Python floats: every finite binary64 value is covered bit-exactly by Coq's "
+    "PrimFloat in the correspondence; inv/no_raise/refines are proved for EVERY arithmetic; the policy theorem "
+    "(victim has a minimal score) additionally assumes that `<` is irreflexive and transitive, which is true of IEEE "
+    "`<` but is not proved for PrimFloat here",
     "among equal lowest scores the first entry in insertion order is the designated victim (Python's min)",
-    "DiskCache: file ctimes are pairwise distinct and increase with every write (the harness waits for the clock and "
-    "checks this after every put; timestamps themselves are never compared); md5(pickle(key)) is injective on the keys "
-    "used; one process owns the directory; pickle/cloudpickle round trips of small ints are the identity",
+    "DiskCache: file ctimes are pairwise distinct and increase with every write (the harness waits for the file-system "
+    "clock before every put and checks it afterwards; timestamps themselves are never compared); under this "
+    "assumption the order in which glob() lists the files is irrelevant (proved: evict_loop_ok) and the model lists "
+    "them in order of writing; md5(pickle(key)) is injective on the keys used; ONE process owns the directory; "
+    "pickle/cloudpickle round trips of small ints are the identity",
+    "DiskCache: max_size bounds the number of FILES (len); a key whose file was evicted stays visible through the "
+    "in-memory LRU front until it leaves the front (len(c) can be smaller than the number of keys reported present) - "
+    "this is the documented two-level behaviour and is part of the abstract specification, not a finding; a "
+    "DiskCache reopened with a smaller max_size holds more than max_size files until the next put",
     "shared=True is exercised sequentially in-process against the same model as shared=False (all manager objects "
-    "come from one multiprocessing.Manager started by the harness); real multi-process / multi-thread interleavings "
-    "are NOT modelled: only the two-client step-scheduler exploration of get-vs-put described in the report",
+    "come from one multiprocessing.Manager started by the harness; a used shared LRU/Hybrid cache is reset by "
+    "emptying its manager containers directly)",
+    "concurrency: covered = every schedule of two clients with 1-2 put/get operations each, where each call on the "
+    "dict/list/lock objects is atomic (as manager proxy calls are) and the lock excludes; NOT modelled: real "
+    "multi-process timing, more than two clients, manager failures, `in`/`len` racing with a put (they are lock-free "
+    "single calls and may see the state between the eviction and the insertion of a concurrent put - after the fix "
+    "never more than max_size entries), several processes sharing one DiskCache directory",
     "max_size >= 1 (LRUCache rejects 0 itself; HybridCache(max_size=0).put raises ValueError - outside the property)",
 ]
 TRUSTED = ["Model/Caches.v mirrors pipefunc/cache.py by hand; tie = per-run differential execution on complete "
-           "operation trees", "Coq PrimFloat = hardware binary64 = Python float (vm_compute)"]
+           "operation trees", "Coq PrimFloat = hardware binary64 = Python float (vm_compute)",
+           "the harness' step scheduler (two threads, semaphores) enumerates all schedules of its yield points"]
 
 NKEYS_MAX = 4
 
